@@ -98,4 +98,25 @@ theorem slices_wellformed (a b : Extent) (ha : a.rmin ≤ a.rmax ∧ a.cmin ≤ 
   rw [intersect_iff'] at h
   rw [intersectionSlices_eq]; simp only [Extent.nrow, Extent.ncol]; omega
 
+/-! ### translation covariance of the extent kernel (position independence) -/
+
+/-- an extent moved by (d0, d1) pixels -/
+def Extent.shift (e : Extent) (d0 d1 : Int) : Extent := ⟨e.rmin + d0, e.rmax + d0, e.cmin + d1, e.cmax + d1⟩
+
+theorem arrayExtent_translate (s0 s1 o0 o1 d0 d1 : Int) :
+    arrayExtent s0 s1 (o0 + d0) (o1 + d1) = (arrayExtent s0 s1 o0 o1).shift d0 d1 := by
+  rw [arrayExtent_eq, arrayExtent_eq]; simp only [Extent.shift, Extent.mk.injEq]; omega
+
+theorem intersect_translate (a b : Extent) (d0 d1 : Int) :
+    intersect (a.shift d0 d1) (b.shift d0 d1) = intersect a b := by
+  rw [Bool.eq_iff_iff, intersect_iff', intersect_iff']; simp only [Extent.shift]; omega
+
+theorem intersectionSlices_translate (a b : Extent) (d0 d1 : Int) :
+    intersectionSlices (a.shift d0 d1) (b.shift d0 d1) = intersectionSlices a b := by
+  rw [intersectionSlices_eq, intersectionSlices_eq]; simp only [Extent.shift, Prod.mk.injEq]; omega
+
+theorem intersectionShift_translate (a b : Extent) (d0 d1 : Int) :
+    intersectionShift (a.shift d0 d1) (b.shift d0 d1) = ((intersectionShift a b).1 + d0, (intersectionShift a b).2 + d1) := by
+  rw [intersectionShift_eq, intersectionShift_eq]; simp only [Extent.shift, Prod.mk.injEq]; omega
+
 end Lentil
